@@ -222,11 +222,14 @@ class GizaYamlDomain:
         file_id = path.name
         needs_rebuild = [file_id]
         if file_id in giza_category.dg:
-            needs_rebuild.extend(
-                dependent
-                for dependent in giza_category.dg.predecessors(file_id)
-                if dependent != file_id
-            )
+            # Inheritance is transitive: the files inheriting from our heirs are out of
+            # date as well, so walk the whole graph upwards (it may contain cycles)
+            pending = [file_id]
+            while pending:
+                for dependent in giza_category.dg.predecessors(pending.pop()):
+                    if dependent not in needs_rebuild:
+                        needs_rebuild.append(dependent)
+                        pending.append(dependent)
         logger.debug("needs_rebuild: %s", ",".join(needs_rebuild))
 
         for rebuild_id in needs_rebuild:
